@@ -155,11 +155,14 @@ def doc_block(lines, indent="", module=None):
 #   block    blockkind args body                if/foreach/while ... end
 # doc = None | dict(lines=[...], indent=str)
 
-def mk_doc(rng, p=0.5, kwargs_p=0.1):
+KWARGS_P = 0.1
+
+
+def mk_doc(rng, p=0.5, kwargs_p=None):
     if rng.random() >= p:
         return None
     lines = rand_doc_lines(rng)
-    if rng.random() < kwargs_p:
+    if rng.random() < (KWARGS_P if kwargs_p is None else kwargs_p):
         lines.insert(rng.randint(0, len(lines)), ":param **kwargs: extra")
     return dict(lines=lines, indent=rng.choice(["", "", "  ", "    ", "\t", " \t "]))
 
